@@ -648,7 +648,15 @@ func (g *FuncGen) analyzeCFG() {
 					break
 				}
 			}
-			fmt.Fprintf(os.Stderr, "LOOP %s: loop %d at %s (header block %d, first positioned instruction at %s)\n", g.fnName, li.ordinal, g.prog.Fset.Position(li.minPos), li.header.Index, g.prog.Fset.Position(hp))
+			fc := token.NoPos // first call inside the loop: usually the most telling position
+			for b := range li.blocks {
+				for _, in := range b.Instrs {
+					if c, ok := in.(*ssa.Call); ok && c.Pos().IsValid() && (fc == token.NoPos || c.Pos() < fc) {
+						fc = c.Pos()
+					}
+				}
+			}
+			fmt.Fprintf(os.Stderr, "LOOP %s: loop %d at %s (header block %d, first positioned instruction at %s, first call at %s)\n", g.fnName, li.ordinal, g.prog.Fset.Position(li.minPos), li.header.Index, g.prog.Fset.Position(hp), g.prog.Fset.Position(fc))
 		}
 		if g.contract != nil {
 			li.spec = g.contract.Loops[li.ordinal]
